@@ -132,29 +132,39 @@ impl Check {
     /// Install the watchdog's handler: an execution whose task poll never returns ends the run with a
     /// replay file, an evidence file that says the exploration was aborted, and a verdict line.
     fn install_hang_handler(prop: &'static str, tier: Tier, seed: i64, start: Instant) {
-        *crate::simnet::HANG_HANDLER.lock().unwrap() = Some(Box::new(move |rec, cfg, is_violation| {
+        *crate::simnet::HANG_HANDLER.lock().unwrap() = Some(Box::new(move |kind, rec, cfg, is_violation| {
+            let abort = kind == "process-abort";
             let root = verif_root();
             let execs = crate::simnet::EXECS_DONE.load(std::sync::atomic::Ordering::Relaxed);
             let dir = root.join("replays").join(prop);
             let _ = std::fs::create_dir_all(&dir);
-            let path = dir.join("poll-never-returns.json");
-            let detail = format!(
-                "a task poll of the endpoint did not return within the watchdog limit (an endless loop inside one poll): the execution cannot continue and the exploration was aborted after {execs} executions; events so far {:?}",
-                rec.labels
-            );
+            let path = dir.join(format!("{kind}.json"));
+            let witness = if abort { crate::simnet::panic_site(rec.panic.as_deref().unwrap_or("?")) } else { "a task poll never returned".to_string() };
+            let detail = if abort {
+                format!(
+                    "the library panicked ({}) and panicked again in a destructor while unwinding: the Rust runtime aborts the process, as it would abort the user's; the exploration ended after {execs} executions; events so far {:?}",
+                    rec.panic.as_deref().unwrap_or("?"),
+                    rec.labels
+                )
+            } else {
+                format!(
+                    "a task poll of the endpoint did not return within the watchdog limit (an endless loop inside one poll): the execution cannot continue and the exploration was aborted after {execs} executions; events so far {:?}",
+                    rec.labels
+                )
+            };
             let body = json!({
-                "property": prop, "tier": tier.name(), "clause": "poll-never-returns", "witness": "a task poll never returned",
+                "property": prop, "tier": tier.name(), "clause": kind, "witness": witness,
                 "detail": detail,
-                "replay": {"cfg": cfg, "choices": rec.choices, "events": rec.labels, "log": rec.log, "note": "replaying this schedule does not terminate either; run `mc replay` under a timeout"},
+                "replay": {"engine": "simnet", "cfg_index": crate::simnet::CUR_CFG_INDEX.load(std::sync::atomic::Ordering::Relaxed), "max_polls": crate::simnet::CUR_MAX_POLLS.load(std::sync::atomic::Ordering::Relaxed), "cfg": cfg, "choices": rec.choices, "events": rec.labels, "log": rec.log, "note": if abort { "replaying this schedule aborts the replaying process as well" } else { "replaying this schedule does not terminate either; run `mc replay` under a timeout" }},
             });
             let _ = std::fs::write(&path, serde_json::to_string_pretty(&body).unwrap());
             let ev = json!({
                 "property_id": prop, "tier": tier.name(), "seed": seed, "level": "model_checking",
                 "coverage": {
                     "evaluations": execs, "distinct_nontrivial": 0,
-                    "rule": "ABORTED: a task poll of the library never returned in the execution written to the replay file; counts are the executions completed before that",
+                    "rule": format!("ABORTED ({kind}) in the execution written to the replay file; counts are the executions completed before that"),
                     "samples": [rec.labels], "states": execs.max(1), "transitions": execs.max(1), "traces_validated_against_impl": execs,
-                    "exhaustive": false, "caps_hit": ["aborted by the watchdog: poll never returned"],
+                    "exhaustive": false, "caps_hit": [format!("aborted: {kind}")],
                 },
                 "assumptions": [], "wall_s": start.elapsed().as_secs_f64(), "violations": if is_violation { 1 } else { 0 },
             });
@@ -163,9 +173,14 @@ impl Check {
             let _ = std::fs::write(evdir.join(format!("{prop}.json")), serde_json::to_string_pretty(&ev).unwrap());
             if is_violation {
                 println!("VIOLATION property={prop} replay={}", path.display());
-                println!("  clause=poll-never-returns witness=a task poll never returned");
+                println!("  clause={kind} witness={witness}");
                 println!("  {}", detail.chars().take(600).collect::<String>());
                 println!("{prop} {}: evaluations={execs} exhaustive=false unknown_violations=1 (aborted) wall={:.1}s", tier.name(), start.elapsed().as_secs_f64());
+                use std::io::Write;
+                let _ = std::io::stdout().flush();
+                if abort {
+                    unsafe { libc::_exit(1) };
+                }
                 std::process::exit(1);
             }
         }));
@@ -205,6 +220,8 @@ impl Check {
             self.caps.push(format!("time budget exhausted before config #{cfg_index} {cfg:?}"));
             return Stats::default();
         }
+        crate::simnet::CUR_CFG_INDEX.store(cfg_index, std::sync::atomic::Ordering::Relaxed);
+        crate::simnet::CUR_MAX_POLLS.store(ecfg.max_polls, std::sync::atomic::Ordering::Relaxed);
         let st = explore::<S>(cfg, ecfg, self.deadline);
         self.evaluations += st.execs;
         self.states += st.points;
